@@ -1,6 +1,6 @@
 (* Executable entry points for the C02 correspondence (aliased fill of polygons inside the clip). *)
 From Coq Require Import ZArith Bool List.
-From TS Require Model.CurveEdge Model.CurveFill.
+From TS Require Model.CurveEdge Model.CurveFill Model.CurveEdgeSearch.
 From TS Require Import Base.F32 Model.Rect Model.PathBuilder Model.Conic Model.RunC14 Model.IntRect Model.Edge Model.Walk.
 Import ListNotations.
 Local Open Scope Z_scope.
@@ -81,6 +81,14 @@ Definition run_cubic_edge (l : list Z) : list Z :=
       | None => [-1]
       | Some ls => Z.of_nat (length ls) :: flat_map (fun e => [e_x e; e_dx e; e_first_y e; e_last_y e; e_winding e]) ls
       end
+  | _ => [-3]
+  end.
+
+(* search aid: args x0 y0 .. x3 y3 (bit patterns) shift -> 1 when a y-monotone piece of the cubic needs CubicEdge's pin *)
+Definition run_cubic_pin (l : list Z) : list Z :=
+  match l with
+  | [a; b; c; d; e; f; g; h; sh] =>
+      [if CurveEdgeSearch.cubic_needs_pin (pz a b) (pz c d) (pz e f) (pz g h) sh then 1 else 0]
   | _ => [-3]
   end.
 
